@@ -6,6 +6,12 @@ V = os.path.dirname(os.path.dirname(os.path.abspath(__file__)))
 # id -> (technique, level text, level note, design ref)
 PROOF_NOTE = "Lean 4.33 kernel; axioms propext/Quot.sound/Classical.choice only (audited per run); translator go/extract and the layout interpreter Model/Layout.lean validated against the real IEncode/IDecode by the correspondence run; Go runtime/stdlib modelled (DESIGN.md 2.6)."
 CLAIMED = {
+ "C03": ("Lean 4 theorems on the layout interpreter over every regenerated PDU decoder and every octet string: the only outcomes are a PDU or an error (no panic, no unmodelled statement; termination by the kernel, optional-parameter loops by input-bounded fuel), allocator requests <= input length + 65,790 (reader never requests unseen octets; count/length fields bounded by their declared width), success implies the fixed-width mandatory part was present; correspondence plus in-process execution of all 58 decoders, 5 dispatchers, ~30 auxiliary parsers and both frame extractors on structured malformed images with panic / deadline / runtime.MemStats capture",
+         "Unbounded proof on the model for all byte strings and all PDU types (per-run `decide` over the regenerated layouts). The Go side of 'no panic / no hang / bounded allocation' is observed, not proved: every truncation point, length/count substitutions, inconsistent and hostile declared lengths, garbage and optional tails for each PDU type; auxiliary parsers on all strings of <= 2 octets, branch alphabets to length 4 (6 thorough) and random strings. The truncation theorem covers the fixed-width mandatory minimum; rejection of every proper prefix of the variable mandatory part is checked on the implementation. Coverage-guided fuzzing is not used (structure-directed enumeration instead).",
+         PROOF_NOTE + " Allocation is modelled as requested octets/slots; Go runtime allocation (TotalAlloc) is measured against 64*len+256KiB.", "DESIGN.md 4/C03"),
+ "C11": ("Lean 4 theorems on the layout interpreter: re-encoding a decoded canonical image reproduces it (corollary of the reflective round-trip theorem), the only receiver normalisations are the documented ones (by `decide` over the regenerated layouts), same fields give the same octets; stability on arbitrary accepted images (junk after NULs, inconsistent counts, duplicate tags, maximum-length optional values) by decode->encode->decode chains on the implementation, compared with the model",
+         "Proof for canonical images of every PDU type outside the recorded SMGP exceptions; for non-canonical accepted images the chain is executed on the implementation for mutated images of every PDU type (partial: `decoded_fits`, that whatever a decoder accepts fits the encoder's preconditions, is not yet a theorem).",
+         PROOF_NOTE, "DESIGN.md 4/C11"),
  "C09": ("Lean 4 theorems quantifying over every enumeration order and every output of a sorting routine that satisfies sort.Sort's contract (permutation + sortedness): the head is the unique minimum by (parts, priority), hence a function of the candidate set; priority tables regenerated from init() and shown injective by `decide`; fallback / error clauses on the model; correspondence and direct comparison with an independent reference selection under shuffled orders, duplicates and GOMAXPROCS 1..16",
          "The adversary (map iteration order, goroutine completion, the sort algorithm) is a universally quantified permutation in the theorems; what is proved is determinism and minimality of the selection. That the goroutines Build starts share no mutable state is a Go memory-model fact outside the model: each request is re-run under shuffled order, duplicates and four GOMAXPROCS settings and compared (see C13 for the race detector runs).",
          PROOF_NOTE + " sort.Sort assumed to satisfy its contract; errgroup / goroutine scheduling sampled.", "DESIGN.md 4/C09"),
